@@ -1,8 +1,8 @@
 /-
   Driver ops for C06.
     partial : {policy, env, impl:{keep, policy?}} → "dom=0|1 domI=0|1 agree" | "dom=0|1 domI=0|1 differ model=… impl=…"
-      (`dom` = the case lies in `partialDomain`, the domain of the keep / drop soundness theorems;
-       `domI` = it lies in `partialDomainI`, the domain of the ignore-widening theorem)
+      (`dom` = the case satisfies `partialDomain`, the premise of the keep / drop soundness theorems: no ignore marker
+       is met; `domI` = the ignore-widening theorem applies: always 1 since the repairs of partial.go)
       runs `partialPolicy` (Model/Partial.lean) on the policy and the partial environment (unknowns / ignore
       markers arrive as the reserved entities) and compares the model's residual with the implementation's
       residual AST after canonical rendering (`showExpr`; the message inside `__cedar::partialError(..)` is masked).
@@ -87,7 +87,8 @@ def opPartial : Handler := fun envs j => do
   let implRes ← if keep then do let q ← decPolicy (← field impl "policy"); pure (some q) else pure none
   let m := showPartial (partialPolicy env p)
   let i := showPartial implRes
-  let dom := (if partialDomain env p then "dom=1" else "dom=0") ++ (if partialDomainI env p then " domI=1" else " domI=0")
+  -- `domI`: the ignore-widening theorem has no domain hypothesis any more (kept in the answer format, always 1)
+  let dom := (if partialDomain env p then "dom=1" else "dom=0") ++ " domI=1"
   .ok (dom ++ " " ++ (if m == i then "agree" else s!"differ model={m} impl={i}"))
 
 def c06Ops : List (String × Handler) := [("partial", opPartial), ("partial-show", opPartialShow)]
